@@ -710,7 +710,7 @@ func init() {
 	engine.Register(engine.Spec[Case]{
 		ID:    "C08",
 		Level: "exploration",
-		Rule: "crash/hang oracle over (1) the complete product assignment operator (15) x target type (7) x operand type (7) x boundary operands (0, +-1, INT64 min/max, 2^31, 63/64/65, NaN/inf, FLOAT_MAX/MIN, empty and not-set strings, epoch boundary times, ...) x {literal, variable} x 3 initial values, plus header and header-sub-field targets; (2) every built-in function of builtin.yml x every declared signature x boundary arguments per parameter type (full product up to 3 parameters, one deviation beyond), as assignment, in a condition and in a concatenation; (3) every statement derivation within 1 deviation in all 9 scopes; recursive / mutually recursive / functional-recursive subroutines, non-recursive call graphs with exponential expansion (chains of depth 12-60 with fan-out 2-3, a diamond), header values malformed as sub-field lists read / replaced / removed on every object and arriving in a request header, unconditional restart and return(restart) in every scope, error in error, goto loops, all self/mutual/missing include shapes at root and statement level through ServeHTTP; 7 director types x 6 member shapes x 8 property sets x where the backend is selected x the state vcl_recv returns, and backends with odd properties or none; (4) the full lifecycle through ServeHTTP with a program that reads every readable predefined variable of every scope, for 5 methods x 4 paths x 3 queries x 5 header sets x 1-3 requests per instance; (5) the test runner on 7 test files. Every case runs under a fuel budget of 2e7 ticks. non-trivial = every case; distinct = distinct program/requests Round 3: concatenations whose terms carry a sign or prefix operator (4 signs x 18 atoms x 9 continuations x 7 contexts); the four symmetric cipher built-ins with well-formed keys and IVs over cipher x mode x padding x IV size x 9 text lengths around the block size; director weights around 1000.",
+		Rule: "crash/hang oracle over (1) the complete product assignment operator (15) x target type (7) x operand type (7) x boundary operands (0, +-1, INT64 min/max, 2^31, 63/64/65, NaN/inf, FLOAT_MAX/MIN, empty and not-set strings, epoch boundary times, ...) x {literal, variable} x 3 initial values, plus header and header-sub-field targets; (2) every built-in function of builtin.yml x every declared signature x boundary arguments per parameter type (full product up to 3 parameters, one deviation beyond), as assignment, in a condition and in a concatenation; (3) every statement derivation within 1 deviation in all 9 scopes; recursive / mutually recursive / functional-recursive subroutines, non-recursive call graphs with exponential expansion (chains of depth 12-60 with fan-out 2-3, a diamond), header values malformed as sub-field lists read / replaced / removed on every object and arriving in a request header, unconditional restart and return(restart) in every scope, error in error, goto loops, all self/mutual/missing include shapes at root and statement level through ServeHTTP; 7 director types x 6 member shapes x 8 property sets x where the backend is selected x the state vcl_recv returns, and backends with odd properties or none; (4) the full lifecycle through ServeHTTP with a program that reads every readable predefined variable of every scope, for 5 methods x 4 paths x 3 queries x 5 header sets x 1-3 requests per instance; (5) the test runner on 7 test files. Every case runs under a fuel budget of 2e7 ticks. non-trivial = every case; distinct = distinct program/requests Round 3: concatenations whose terms carry a sign or prefix operator (4 signs x 18 atoms x 9 continuations x 7 contexts); the four symmetric cipher built-ins with well-formed keys and IVs over cipher x mode x padding x IV size x 9 text lengths around the block size; director weights around 1000. Round 4: 13 programs refused at initialisation, each asked three times on one instance; a case that has not returned after 90 s is looked at through the goroutine dump and reported as blocked only if its body is parked on a lock, channel or wait group (a body that is still runnable is left undecided).",
 		Gen:  gen08,
 		Key: func(c Case) string {
 			var b strings.Builder
